@@ -265,8 +265,15 @@ class Gen:
     def workspace(self):
         """multi-file workspace: returns (files, root).  Shapes: single, chain, star, diamond (with redefinition
         of a class between the two visits of the shared file), missing include, include inside a block."""
-        shape = self.r.randrange(13)
+        shape = self.r.randrange(14)
         d = "/w/"
+        if shape == 13:
+            # an include inside a block of a multiclass body; the included (longer) file declares a multiclass with template arguments
+            pad = "// " + "padding " * self.r.randrange(3, 12) + "\n"
+            blk = self.pick(["foreach i = [1] in { include \"a.td\" }", "let x = 1 in { include \"a.td\" }", "if 1 then { include \"a.td\" }"])
+            return [[d + "main.td", "multiclass %s<int %s> { %s def X; }\n" % (self.pick(MCS), self.pick(ARGS), blk) + self.program(1)],
+                    [d + "a.td", pad + "multiclass %s<int %s, string %s = \"s\"> { def Y; }\n" % (self.pick(MCS), self.pick(ARGS), self.pick(FIELDS))
+                     + self.program(2) + "\nclass %s<int %s>;\n" % (self.pick(CLASSES), self.pick(ARGS))]], d + "main.td"
         if shape == 8:
             # a defset whose body includes another (longer) file: the included defs are members of the defset
             c = self.pick(CLASSES)
@@ -399,6 +406,9 @@ def inject_nonascii(text, rng, n=4):
     out = "".join(toks)
     if rng.random() < 0.3:
         out = out.replace("\n", "\r\n")
+    if rng.random() < 0.2:
+        # byte order mark, directly followed (sometimes) by a comment with a multi-byte character
+        out = "\ufeff" + (rng.choice(["/*é*/", "// 漢\n", "/*\U0001F600*/", ""]) ) + out
     return out
 
 
